@@ -503,6 +503,79 @@ func typed(ty int, rw bool, prog [][]acq, bound, raceBound int) schk.Scenario {
 	return sc
 }
 
+// unhashable: a keyed mutex with interface keys is handed a key that cannot be hashed (a slice inside the
+// interface): the call panics like a map access would, and the caller recovers. Whatever that call did,
+// other keys must be as usable as before, for this thread and for another one (no lock left behind).
+func unhashableScenario(rw, used bool, op string) schk.Scenario {
+	name := fmt.Sprintf("%s[any]/used=%v|T0 %s(unhashable key, recovered) then Lx || T1 Ly", map[bool]string{false: "KeyedMutex", true: "KeyedRWMutex"}[rw], used, op)
+	type urec struct{ done [2]bool }
+	return schk.Scenario{
+		Name: name, Bound: -1, RaceBound: -2,
+		Body: func(s *vrt.Sched) any {
+			r := &urec{}
+			var km *sync2.KeyedMutex[any]
+			var krw *sync2.KeyedRWMutex[any]
+			lock := func(k any) {
+				if rw {
+					krw.LockKey(k)
+					krw.UnlockKey(k)
+				} else {
+					km.LockKey(k)
+					km.UnlockKey(k)
+				}
+			}
+			if rw {
+				krw = new(sync2.KeyedRWMutex[any])
+			} else {
+				km = new(sync2.KeyedMutex[any])
+			}
+			if used {
+				lock("x")
+				lock("y")
+			}
+			bad := any([]int{1})
+			s.Spawn("T0", func() {
+				func() {
+					defer func() { recover() }()
+					switch {
+					case op == "L" && rw:
+						krw.LockKey(bad)
+					case op == "L":
+						km.LockKey(bad)
+					case op == "TL" && rw:
+						krw.TryLockKey(bad)
+					case op == "TL":
+						km.TryLockKey(bad)
+					case op == "RL":
+						krw.RLockKey(bad)
+					case op == "TRL":
+						krw.TryRLockKey(bad)
+					case op == "C" && rw:
+						krw.ClearKey(bad)
+					default:
+						km.ClearKey(bad)
+					}
+				}()
+				lock("x")
+				r.done[0] = true
+			})
+			s.Spawn("T1", func() { lock("y"); lock("z"); r.done[1] = true })
+			return r
+		},
+		Check: func(x *vrt.Exec, obs any) (*schk.Fail, string) {
+			r := obs.(*urec)
+			if x.Panic != "" {
+				return nil, "panic"
+			}
+			if x.Deadlock || !r.done[0] || !r.done[1] {
+				return schk.Failf("blocked-after-recovered-panic", "after a call with an unhashable key panicked (and was recovered) other keys can no longer be acquired: %v", x.Blocked), ""
+			}
+			return nil, "ok"
+		},
+		ExpectDeadlock: true,
+	}
+}
+
 func main() {
 	r := ev.Start("C09")
 	var scs []schk.Scenario
@@ -607,6 +680,15 @@ func main() {
 			scs = append(scs, crowded(rw, false, crowd, [][]acq{{{"L", 0}}, {{"L", 0}}, {{"L", 1}, {"TL", 0}}}, ev.Pick(r, 1, 2), -2))
 			if rw {
 				scs = append(scs, crowded(rw, false, crowd, [][]acq{{{"RL", 0}}, {{"L", 1}, {"TRL", 0}, {"TL", 0}}}, ev.Pick(r, 2, 3), -2))
+			}
+		}
+		for _, used := range []bool{false, true} {
+			ops := []string{"L", "TL", "C"}
+			if rw {
+				ops = append(ops, "RL", "TRL")
+			}
+			for _, op := range ops {
+				scs = append(scs, unhashableScenario(rw, used, op))
 			}
 		}
 		// ClearKey between uses (no goroutine holds or awaits the key), another thread on the other key
